@@ -551,7 +551,11 @@ def check_wiring(fx, R):
             val = st.fields.get(('this', 'checkup_') + VALUE[1:])
             newrate = st.fields.get(('this', 'rateMonitoring_', 'rate_'), sp.Symbol('this.rateMonitoring_.rate_', real=True))
             stored = st.fields.get(('this', 'checkup_') + STATUS[1:])
-            if not (isinstance(val, sp.Basic) and val.func == sp.Function('toStringInfoValue') and sp.simplify(val.args[0] - newrate) == 0):
+            if val is None:
+                # the path does not write the info entry at all (a value cache in front of the formatting): whether skipping is coherent is rule M5's business
+                if ok is True:
+                    ok, why = None, 'a path of evaluate() leaves the info entry unwritten (a cache of the printed value: judged by M5)'
+            elif not (isinstance(val, sp.Basic) and val.func == sp.Function('toStringInfoValue') and sp.simplify(val.args[0] - newrate) == 0):
                 ok, why = False, 'the value handed to the check-up is %s, not the rate just returned by update() (%s)' % (val, newrate)
             elif st.ret != stored:
                 ok, why = False, 'evaluate returns %s but the report stores %s' % (st.ret, stored)
